@@ -74,6 +74,58 @@ pub fn op_sign(n: usize, keyseed: &[u8], msg: &[u8], rngseed: u64) -> String {
     format!("{} {} {} {} {}", r.verified, attempts, retries, hex(&r.sig), hex(&r.pk))
 }
 
+/// `sign_model N keyseed r0 r1 r2 r3 msg streamseed len pk`: the real `sign` drawing every byte (salt, the unused 32-byte
+/// seed, every sample) from the byte stream Prng(streamseed).bytes(len) -> `<sig hex> <attempts> <compress retries>
+/// <verified>`; the Lean model of the whole of `sign` (floating point included) must produce the same bytes
+pub fn op_sign_model(n: usize, keyseed: &[u8], rows: [&str; 4], msg: &[u8], streamseed: u64, len: usize, pkhex: &str) -> String {
+    let k = key(n, keyseed);
+    let b0 = match &*k {
+        AnySk::S512(sk, _) => sk.verif_b0(),
+        AnySk::S1024(sk, _) => sk.verif_b0(),
+    };
+    for i in 0..4 {
+        if ints(&b0[i].iter().map(|&x| x as i64).collect::<Vec<i64>>()) != rows[i] {
+            return "key-mismatch".to_string();
+        }
+    }
+    let mut src = StreamRng::new(Prng::new(streamseed).bytes(len));
+    src.panic_on_exhaust = true;
+    vh::rng_inject(Box::new(src));
+    vh::trace_start(false);
+    let r = std::panic::catch_unwind(|| match &*k {
+        AnySk::S512(sk, pk) => {
+            let sig = falcon512::sign(msg, sk);
+            let ok = falcon512::verify(msg, &sig, pk);
+            (sig.to_bytes(), pk.to_bytes(), ok)
+        }
+        AnySk::S1024(sk, pk) => {
+            let sig = falcon1024::sign(msg, sk);
+            let ok = falcon1024::verify(msg, &sig, pk);
+            (sig.to_bytes(), pk.to_bytes(), ok)
+        }
+    });
+    let events = vh::trace_take();
+    vh::rng_clear();
+    match r {
+        Err(e) => {
+            let m = e.downcast_ref::<String>().cloned().or_else(|| e.downcast_ref::<&str>().map(|s| s.to_string())).unwrap_or_default();
+            if m.contains("stream-exhausted") {
+                "stream-exhausted".to_string()
+            } else {
+                format!("PANIC {m}")
+            }
+        }
+        Ok((sig, pk, ok)) => {
+            if hex(&pk) != pkhex {
+                return "key-mismatch".to_string();
+            }
+            let attempts = events.iter().filter(|e| e.tag == "sign.z").count();
+            let retries = events.iter().filter(|e| e.tag == "sign.s2" && e.ints[0] == 0).count();
+            format!("{} {} {} {}", hex(&sig), attempts, retries, ok)
+        }
+    }
+}
+
 /// `sign_salt N keyseed msg rngseed` -> the salt of the signature and the first 40 bytes the generator produced
 pub fn op_sign_salt(n: usize, keyseed: &[u8], msg: &[u8], rngseed: u64) -> String {
     let r = sign_traced(n, keyseed, msg, Some(rngseed), false);
